@@ -237,20 +237,20 @@ package sqlite
 // gap-free and repeat-free.
 //@ event batchCall := call (*SQLiteStore).streamBatch
 //@ func (*SQLiteStore).streamBatched
-//@   props C11
+//@   props C11 C10
 //@   requires s != nil && ctx != nil && s.db != nil && s.cfg != nil && eventCount != nil && iterErr != nil && yield != nil
 //@   requires 0 <= *eventCount && *eventCount <= ite(fromPosition > 0, fromPosition, 0) && s.cfg.streamBatchSize > 0
 //@   requires exclusive(eventCount)
 //@   requires exclusive(iterErr)
-//@   loop 1 invariant [C11.batched.cursor] currentPos == ite(cnt(batchCall) == 0, fromPosition, lastresi(batchCall, 1)) && (cnt(batchCall) > 0 ==> lastresi(batchCall, 2, Bool) && lastresi(batchCall, 0) >= batchSize)
+//@   loop 1 invariant [C11.batched.cursor] {C10,C11} currentPos == ite(cnt(batchCall) == 0, fromPosition, lastresi(batchCall, 1)) && (cnt(batchCall) > 0 ==> lastresi(batchCall, 2, Bool) && lastresi(batchCall, 0) >= batchSize)
 //@   loop 1 invariant [C11.batched.count] 0 <= *eventCount && *eventCount <= ite(currentPos > 0, currentPos, 0)
 //@   loop 1 invariant [C11.batched.noerr] cnt(y1) == 0 && cnt(y2) == 0
 //@   ensures [C11.batched.errs] cnt(y1) + cnt(y2) <= 1 && (cnt(y1) == 1 ==> lastarg(y1, 1) == nil && lastarg(y1, 2, Iface) != nil && ctxSeenDone(ctx)) &&
 //@        (cnt(y2) == 1 ==> lastarg(y2, 1) == nil && lastarg(y2, 2, Iface) != nil && lastresi(qDB, 1, Iface) != nil)
 // it ends quietly (no error yield of its own) only after a batch that stopped the stream itself or came back short and complete
-//@   ensures [C11.batched.end] cnt(y1) + cnt(y2) == 0 ==> cnt(batchCall) >= 1 && (!lastresi(batchCall, 2, Bool) || lastresi(batchCall, 0) < s.cfg.streamBatchSize)
+//@   ensures [C11.batched.end] {C10,C11} cnt(y1) + cnt(y2) == 0 ==> cnt(batchCall) >= 1 && (!lastresi(batchCall, 2, Bool) || lastresi(batchCall, 0) < s.cfg.streamBatchSize)
 //@   at call:(*DB).QueryContext assert [C11.batched.query] query == SQL_READ()
-//@   at call:(*SQLiteStore).streamBatch assert [C11.batched.args] payload(rowsArg(rows, 0)) == currentPos && payload(rowsArg(rows, 1)) == batchSize
+//@   at call:(*SQLiteStore).streamBatch assert [C11.batched.args] {C10,C11} payload(rowsArg(rows, 0)) == currentPos && payload(rowsArg(rows, 1)) == batchSize
 
 // ---------------------------------------------------------------- ReadStream (C11)
 //@ event rowsCall := call (*SQLiteStore).streamRows
